@@ -7,9 +7,11 @@
     Every Go operation that could panic for ANOTHER reason (tok.txt[0], values[i]) is an
     option-valued operation whose [None] becomes [PPanic]. Loops take the fuel [F].
 
-    MAIN definitions = the behaviour after the fixes F8 (discardLine), F9 (BS_ separators) and
-    F11 (signal loop of BO_ must not fail on a non-identifier), see /verif/fixes; the code as it was
-    is kept as [discard_line_old], [parse_bit_timing_old], [signals_loop_old], [parse_old]
+    MAIN definitions = the behaviour after the fixes F8 (discardLine), F9 (BS_ separators),
+    F11 (signal loop of BO_ must not fail on a non-identifier) and F12 (Parser.int converts decimal
+    integer tokens exactly instead of through float64), see /verif/fixes; the code as it was
+    is kept as [discard_line_old], [parse_bit_timing_old], [signals_loop_old], [parse_old] (F8, F9,
+    F11) and [p_int_old] / [DecFloat.int_of_token_old] (F12; [parse_old] is not threaded with it)
     (refuted in Properties/C04.v and C12.v). *)
 From Coq Require Import ZArith List Bool String.
 From CanVerif Require Import Dbc.Ast Dbc.Scanner Dbc.DecFloat.
@@ -292,12 +294,24 @@ Section WithOracle.
          | None => fail (t_pos tok) EValue
          end.
 
+  (** Parser.int after the fix F12: a decimal integer token is converted exactly
+      ([int_of_token], Dbc/DecFloat.v), only the other spellings go through float64 *)
   Definition p_int : M Z :=
     plet neg <- optional_minus;
     plet tok <- next_token;
     if negb (t_typ tok =? TInt) && negb (t_typ tok =? TFloat) then fail (t_pos tok) ESyntax
-    else match parse_float (t_txt tok) with
-         | Some b => let i := int64_of_b64 b in ret (if neg then neg64 i else i)
+    else match int_of_token (t_typ tok =? TInt) neg (t_txt tok) with
+         | Some i => ret i
+         | None => fail (t_pos tok) EValue
+         end.
+
+  (** Parser.int as it was (F12): every token through float64, clamp test [f > math.MaxInt64] *)
+  Definition p_int_old : M Z :=
+    plet neg <- optional_minus;
+    plet tok <- next_token;
+    if negb (t_typ tok =? TInt) && negb (t_typ tok =? TFloat) then fail (t_pos tok) ESyntax
+    else match int_of_token_old neg (t_txt tok) with
+         | Some i => ret i
          | None => fail (t_pos tok) EValue
          end.
 
